@@ -4,7 +4,7 @@ Call-seam invariant on reached states (not the whole per-site input space): ever
 the documented static method in every simulated run is checked against eqs. z, w, quad-2,
 quad-root, psi-sol of docs/background.rst, including refusal <-> negative discriminant."""
 from .. import scen
-from ..checkers import C02Update
+from ..checkers import C02Update, C10Refresh
 from ..common import substream
 from . import base
 
@@ -13,7 +13,7 @@ LEVEL = "exploration"
 RULE = (
     "every call of TDGLSolver.solve_for_psi_squared made by Engine-A runs of a swarm of workloads (gamma in {0,0.1,1,10}, u, "
     "epsilon in [-1,1] constant/spatial/time-dependent, dt_init over 1e-6..10, pinned zeros, strong drives, screening, "
-    "injected refusals excluded), including that its epsilon argument is the declared epsilon(r, t^n); a run is non-trivial when at least 3 calls were checked; distinct = distinct scenario digests"
+    "injected refusals excluded), including that its epsilon, gamma, u and covariant Laplacian are the declared ones for the time of the step; a run is non-trivial when at least 3 calls were checked; distinct = distinct scenario digests"
 )
 BUDGET = {"quick": {"runs": 700, "chunk": 10}, "thorough": {"runs": 120000, "chunk": 20}}
 COMPONENTS = {"real": ["TDGLSolver.solve_for_psi_squared and everything that feeds it (update, operators, drives)"], "stub": ["wall clock", "validator RNG (seeded)"]}
@@ -113,9 +113,12 @@ def run(scn):
 
 
 def _run(scn, ck, seed_sol):
+    # "the covariant Laplacian action" of the documented equation is the one for the vector potential in
+    # force: the operator handed to every update is compared with the reference operator
+    ck_ops = C10Refresh(check_expected=True, rebuild=False)
     return base.physics_run(
         scn,
-        [ck],
+        [ck, ck_ops],
         lambda h, c: ck.calls >= 3,
         lambda h: (scn["device"]["layer"]["gamma"], scn["meta"].get("flavour"), ck.refusals > 0),
         extra=lambda h, c: {"calls": ck.calls, "refusals": ck.refusals, "deadband": ck.deadband, "overflow_skipped": ck.overflow, "max_identity_rel": ck.max_id, "max_modsq_rel": ck.max_mod},
